@@ -33,6 +33,20 @@ pub fn check(ctx: &mut Ctx, b: &[u8], what: &str) {
     if b.len() >= 16 && b[0] == 1 && b[1] == 3 && b[4] <= 7 && (b[5] <= 15 || (128..=159).contains(&b[5])) && (b.len() == 16 || b.len() >= 36) {
         ctx.nontrivial_bytes(b);
     }
+    {
+        let m = Misaligned::new(b);
+        match guard(|| adc_lib(m.slice())) {
+            Ok(lm) if lm == l => {}
+            Ok(_) => {
+                ctx.violation("decoding depends on the alignment of the input slice", format!("{}: the same bytes at an odd address decode differently", what), json!({"bytes": hex(b)}));
+                return;
+            }
+            Err(p) => {
+                ctx.panic_violation("AdcV3Packet::try_from (odd address)", &p, json!({"bytes": hex(b)}));
+                return;
+            }
+        }
+    }
     match (&l, &r) {
         (Some(_), Some(_)) => ctx.count("accepted by both"),
         (None, None) => ctx.count("rejected by both"),
